@@ -195,5 +195,8 @@ func c08(r *h.Result, rng *h.Rng, tier string, replay string) error {
 	if err := c08TextX(r, rng.Fork(), n, mgen{extraFns: true, ms: tier != "quick"}); err != nil {
 		return err
 	}
+	if err := c08SemX(r, rng.Fork(), ns); err != nil {
+		return err
+	}
 	return nil
 }
